@@ -18,11 +18,13 @@ import (
 	"encoding/json"
 	"fmt"
 	"math/rand/v2"
+	"os"
 	"runtime/debug"
 	"slices"
 	"sort"
 	"strings"
 	"sync"
+	"syscall"
 	"testing"
 
 	"github.com/cockroachdb/pebble/internal/base"
@@ -295,29 +297,42 @@ func judge(base, got []opResult) verdict {
 	return v
 }
 
-// errKind reduces an error text to its shape (digit runs become N).
+// errKind reduces an error text to its shape: tokens that contain a digit or
+// look like hex become N.
 func errKind(s string) string {
-	if len(s) > 160 {
-		s = s[:160]
+	if len(s) > 200 {
+		s = s[:200]
 	}
+	isSep := func(c byte) bool { return c == ' ' || c == ':' || c == '/' || c == '(' || c == ')' || c == ',' || c == '=' || c == '[' || c == ']' }
 	var b strings.Builder
-	inNum := false
-	for i := 0; i < len(s); i++ {
-		c := s[i]
-		isNum := c >= '0' && c <= '9' || (inNum && (c >= 'a' && c <= 'f' || c == 'x'))
-		if isNum {
-			if !inNum {
-				b.WriteByte('N')
-			}
-			inNum = true
+	i := 0
+	for i < len(s) {
+		if isSep(s[i]) {
+			b.WriteByte(s[i])
+			i++
 			continue
 		}
-		inNum = false
-		b.WriteByte(c)
+		j := i
+		hasDigit, allHex := false, true
+		for j < len(s) && !isSep(s[j]) {
+			c := s[j]
+			if c >= '0' && c <= '9' {
+				hasDigit = true
+			} else if !(c >= 'a' && c <= 'f' || c == 'x') {
+				allHex = false
+			}
+			j++
+		}
+		if hasDigit || (allHex && j-i >= 4) {
+			b.WriteByte('N')
+		} else {
+			b.WriteString(s[i:j])
+		}
+		i = j
 	}
 	s = b.String()
-	if len(s) > 80 {
-		s = s[:80]
+	if len(s) > 90 {
+		s = s[:90]
 	}
 	return s
 }
@@ -390,6 +405,18 @@ type fileUnderTest struct {
 	verOff   int
 	useCache bool
 	cfgKey   string
+	nBlocks  int
+	nPoints  int
+}
+
+// cpuMillis returns the CPU time consumed by this process so far. It is
+// reported as information only and never used by the oracle or the case list.
+func cpuMillis() int64 {
+	var ru syscall.Rusage
+	if err := syscall.Getrusage(syscall.RUSAGE_SELF, &ru); err != nil {
+		return 0
+	}
+	return (ru.Utime.Sec+ru.Stime.Sec)*1000 + int64(ru.Utime.Usec+ru.Stime.Usec)/1000
 }
 
 func runFile(r *vcommon.Report, fi int, rng *rand.Rand, fut *fileUnderTest, baseline []opResult) {
@@ -469,6 +496,24 @@ func runFile(r *vcommon.Report, fi int, rng *rand.Rand, fut *fileUnderTest, base
 		}()
 		r.Count("files_read_through_block_cache", 1)
 	}
+	calib := os.Getenv("C27_CALIBRATE") != ""
+	if calib && len(cs) > 240 {
+		step := len(cs) / 240
+		var t []corruption
+		for i := 0; i < len(cs); i += step {
+			t = append(t, cs[i])
+		}
+		cs = t
+	}
+	cpu0 := cpuMillis()
+	defer func() {
+		ms := cpuMillis() - cpu0
+		r.Count("cpu_ms_info_only", ms)
+		if calib {
+			fmt.Printf("CALIB %s file=%d bytes=%d blocks=%d points=%d n=%d cpu_ms_per_corruption=%.2f [%s]\n", fut.kind, fi, len(fut.data), fut.nBlocks, fut.nPoints,
+				len(cs), float64(ms)/float64(max(1, len(cs))), fut.desc)
+		}
+	}()
 	var buf []byte
 	identicalNotes := 0
 	for ci, c := range cs {
@@ -607,7 +652,7 @@ func TestVerifC27(t *testing.T) {
 		// footer: ... checksum(4) version(4) magic(8); the low version byte
 		verOff := len(bt.data) - 8 - 4
 		_ = footerOff
-		fut := &fileUnderTest{kind: "table", desc: spec.String(), data: bt.data, read: read, regions: regions, verOff: verOff, useCache: spec.UseCache,
+		fut := &fileUnderTest{kind: "table", desc: spec.String(), data: bt.data, read: read, regions: regions, verOff: verOff, useCache: spec.UseCache, nBlocks: len(layout) - 2, nPoints: bt.nPoints,
 			cfgKey: fmt.Sprintf("%s/%s/%s/2lvl=%v/filter=%v/blob=%v/cache=%v", spec.Format, spec.Checksum, spec.Profile, spec.IndexBlockSize < 100, spec.Filter != "", spec.BlobRefs, spec.UseCache)}
 		runFile(r, fi, rng, fut, baseline)
 	})
@@ -680,7 +725,7 @@ func TestVerifC27Blob(t *testing.T) {
 		if r.WantSample() {
 			r.Sample(map[string]any{"file": fi, "spec": spec.String(), "bytes": len(bb.data), "values": len(bb.vals), "regions": len(regions)})
 		}
-		fut := &fileUnderTest{kind: "blob", desc: spec.String(), data: bb.data, read: read, regions: regions, verOff: -1, useCache: fi%3 == 0,
+		fut := &fileUnderTest{kind: "blob", desc: spec.String(), data: bb.data, read: read, regions: regions, verOff: -1, useCache: fi%3 == 0, nBlocks: len(regions) / 2, nPoints: len(bb.vals),
 			cfgKey: fmt.Sprintf("%s/%s/%s", spec.Format, spec.Checksum, spec.Profile)}
 		runFile(r, fi, rng, fut, baseline)
 	})
